@@ -113,7 +113,9 @@ func (e *Engine) i64(v int64) *smt.Term { return e.C.BVC(64, uint64(v)) }
 func (e *Engine) validSlice(s *SliceV) *smt.Term {
 	c := e.C
 	lim := e.i64(1 << 56)
-	return c.And(c.Sle(e.i64(0), s.Len), c.Sle(s.Len, s.Cap), c.Sle(s.Cap, lim), c.Sle(e.i64(0), s.Off), c.Sle(s.Off, lim))
+	// real slices never point into ghost regions (the ghost output streams)
+	notGhost := c.Not(c.App("region_ghost", smt.Bool, s.Region))
+	return c.And(c.Sle(e.i64(0), s.Len), c.Sle(s.Len, s.Cap), c.Sle(s.Cap, lim), c.Sle(e.i64(0), s.Off), c.Sle(s.Off, lim), notGhost)
 }
 
 func (e *Engine) nilSlice(elem types.Type) *SliceV {
@@ -572,6 +574,11 @@ func (e *Engine) store(st *State, p Value, t types.Type, v Value, pos string) {
 }
 
 func (e *Engine) loadGlobal(st *State, key string, t types.Type) Value {
+	if e.foreignGlobals[key] {
+		if s := scalarSort(t); s != nil {
+			return e.C.Var("g$"+key, s)
+		}
+	}
 	return e.loadHeap(st, e.i64(0), "g:"+key, t)
 }
 
